@@ -113,6 +113,8 @@ fn lenient_char_decode(s: &Shape, input: &[u8]) -> Option<(Val, usize)> {
 pub struct LocalStats {
     pub classes: BTreeMap<&'static str, u64>,
     pub evals: u64,
+    /// non-trivial by rule: the decoder got past the first byte (accepted, or rejected after >= 1 byte was consumed)
+    pub nontrivial: u64,
     pub skipped_zero_width: u64,
     pub accepted: u64,
 }
@@ -162,6 +164,9 @@ pub fn compare_decode(ctx: &Ctx, s: &Shape, input: &[u8], order: u64, st: &mut L
         return;
     }
     st.evals += 1;
+    if input.len() >= 2 || sd.result.is_ok() {
+        st.nontrivial += 1;
+    }
     let placements: &[bool] = if opts.c04 { &[true, false] } else { &[true] };
     for &at_end in placements {
         let borrows = Borrows::default();
@@ -612,7 +617,7 @@ pub fn run(ctx: &Ctx, c04: bool) {
             }
         });
         ctx.add_evals(st.evals);
-        ctx.add_nontrivial(st.evals);
+        ctx.add_nontrivial(st.nontrivial);
         skipped.fetch_add(st.skipped_zero_width, Ordering::Relaxed);
         let m: BTreeMap<String, u64> = st.classes.iter().map(|(k, v)| (k.to_string(), *v)).collect();
         ctx.merge_classes(&m);
@@ -635,7 +640,7 @@ pub fn run(ctx: &Ctx, c04: bool) {
                 }
             });
             ctx.add_evals(st.evals);
-            ctx.add_nontrivial(st.evals);
+            ctx.add_nontrivial(st.nontrivial);
             skipped.fetch_add(st.skipped_zero_width, Ordering::Relaxed);
             let m: BTreeMap<String, u64> = st.classes.iter().map(|(k, v)| (k.to_string(), *v)).collect();
             ctx.merge_classes(&m);
@@ -668,7 +673,7 @@ pub fn run(ctx: &Ctx, c04: bool) {
         });
         pert_total.fetch_add(st.evals, Ordering::Relaxed);
         ctx.add_evals(st.evals);
-        ctx.add_nontrivial(st.evals);
+        ctx.add_nontrivial(st.nontrivial);
         skipped.fetch_add(st.skipped_zero_width, Ordering::Relaxed);
         let m: BTreeMap<String, u64> = st.classes.iter().map(|(k, v)| (k.to_string(), *v)).collect();
         ctx.merge_classes(&m);
@@ -685,9 +690,9 @@ pub fn run(ctx: &Ctx, c04: bool) {
     ev.bound("string_len_max", json!(strlen));
     ev.bound("strings_per_shape", json!(nstr));
     ev.rule = if c04 {
-        "every shape <= k nodes x every byte string over the decoder-relevant alphabet up to the length bound, plus all prefixes / single-byte substitutions / varint re-paddings / adversarial length prefixes of every valid encoding; each decoded twice with the input flush against a PROT_NONE page on either side, under a panic trap, a counting allocator and a borrowed-pointer-range check; every case distinct".into()
+        "every shape <= k nodes x every byte string over the decoder-relevant alphabet up to the length bound, plus all prefixes / single-byte substitutions / varint re-paddings / adversarial length prefixes of every valid encoding; each decoded twice with the input flush against a PROT_NONE page on either side, under a panic trap, a counting allocator and a borrowed-pointer-range check; cases are distinct by construction; non-trivial = accepted, or at least two input bytes".into()
     } else {
-        "integer readers: every byte string up to the length bound over the stated alphabets (all 256 symbols for 16-bit); composite: every shape <= k nodes x every string over the decoder alphabet; plus every prefix/substitution/re-padding/adversarial-length perturbation of every valid encoding; real decoder compared with an independent spec decoder for accept/reject, value, consumed length, remainder pointer and error kind; every case distinct".into()
+        "integer readers: every byte string up to the length bound over the stated alphabets (all 256 symbols for 16-bit); composite: every shape <= k nodes x every string over the decoder alphabet; plus every prefix/substitution/re-padding/adversarial-length perturbation of every valid encoding; real decoder compared with an independent spec decoder for accept/reject, value, consumed length, remainder pointer and error kind; cases are distinct by construction (enumeration without repetition); non-trivial = accepted, or at least two input bytes (the decoder gets past the first byte)".into()
     };
     ev.sample(json!({"shape": "u16", "input": "ff ff 04", "expect": "BadVarint"}));
     ev.sample(json!({"shape": shapes[shapes.len() / 2], "input": hex(&strings[nstr / 2])}));
